@@ -4,11 +4,14 @@
    counter only when the bit changes) IS a sliding window, for every window size and every vote sequence
    (App/RingProofs.v): the counter equals the misses among the most recent min(n, W) votes and the array holds
    exactly those votes; and handle_signature applies exactly this rule to the stored bits / counter / offset, or
-   resets them when it jails (App/RingTie.v). Oracle + correspondence (not a Coq theorem): the composition over a
-   whole history interleaved with other operations, and \"jailed at exactly the first crossing after start+W\". *)
+   resets them when it jails (App/RingTie.v). Proved over whole histories (App/MissedProofs.v): in every reachable state
+   the counter of every validator equals the number of missed entries stored in its bit array - through votes,
+   downtime jailing (array and counter cleared together), double signs, (re-)staking, every transaction, rewards,
+   burns and EndBlock. Oracle + correspondence (not a Coq theorem): \"jailed at exactly the first crossing after
+   start+W\" as a statement about whole vote histories. *)
 From Coq Require Import List ZArith NArith Bool.
 From PM Require Import Base.Bytes Store.KV Store.MergeProofs Num.IntModel Num.DecModel Num.DecProofs
-  App.Model App.BankProofs App.TxProofs App.KeyProofs App.PosProofs App.RingProofs App.RingTie App.Examples.
+  App.Model App.BankProofs App.TxProofs App.KeyProofs App.PosProofs App.RingProofs App.RingTie App.MissedProofs App.Examples.
 Import ListNotations.
 Local Open Scope Z_scope.
 
@@ -34,6 +37,28 @@ Theorem C08_one_vote_is_one_ring_step s a p sg s' si :
              (ring_step (Z.to_nat (p_window (pp s))) (ring_of (missed s) a si) (negb sg)) \/
      ring_eq (Z.to_nat (p_window (pp s))) (ring_of (missed s') a si') ring0).
 Proof. exact (handle_signature_is_ring_step s a p sg s' si). Qed.
+(* ---- every reachable state of every history (staking addresses of one fixed length L: 20 in the implementation) ---- *)
+Theorem C08_counter_equals_stored_misses_all_histories L ops s s' : missed_ok L s -> Forall (op_len_ok L) ops ->
+  run ops s = Some s' -> missed_ok L s'.
+Proof. exact (run_mok L ops s s'). Qed.
+Theorem C08_counter_reading L s a si : missed_ok L s -> aget (sinfo s) a = Some si ->
+  si_missed si = Z.of_nat (length (filter (fun p => snd p && key_of a (fst p)) (missed s))).
+Proof. exact (counter_is_the_number_of_missed_entries L s a si). Qed.
+Theorem C08_genesis L s0 gvals dao s ups : missed_ok L s0 -> NoDup (map (fun g => fst (fst g)) gvals) ->
+  (forall g, In g gvals -> length (fst (fst g)) = L /\ aget (sinfo s0) (fst (fst g)) = None) ->
+  init_chain s0 gvals dao = Some (s, ups) -> missed_ok L s.
+Proof. exact (init_chain_mok L s0 gvals dao s ups). Qed.
+Example C08_ex_premises : missed_ok 2 ex_s0 /\ Forall (op_len_ok 2) ex_ops /\
+  (exists s ups, ex_genesis = Some (s, ups) /\ missed_ok 2 s).
+Proof.
+  assert (H0 : missed_ok 2 ex_s0).
+  { split; [exact I|]. split; [exact I|]. split; [intros a si E; discriminate E|]. intros a _ _. reflexivity. }
+  split; [exact H0|]. split; [repeat constructor|].
+  destruct ex_genesis as [[s ups]|] eqn:E; [|vm_compute in E; discriminate]. exists s, ups. split; auto.
+  unfold ex_genesis in E. eapply C08_genesis; [exact H0| | |exact E].
+  - repeat constructor. intros [].
+  - intros g [<-|[]]. split; reflexivity.
+Qed.
 Example C08_ex_ring : snd (fst (fold_left (ring_step 3) [true; true; false; true; false; false] ring0)) = 1.
 Proof. vm_compute. reflexivity. Qed.
 Example C08_ex_half_of_odd_window :
@@ -45,3 +70,4 @@ Proof. split; vm_compute; reflexivity. Qed.
 Print Assumptions C08_threshold_partial.
 Print Assumptions C08_ring_buffer_is_sliding_window.
 Print Assumptions C08_one_vote_is_one_ring_step.
+Print Assumptions C08_counter_equals_stored_misses_all_histories.
